@@ -110,6 +110,14 @@ impl OutstationTask {
         res
     }
 
+    /// perform the end-of-session resets when the future returned by `run` was dropped
+    /// before it completed
+    pub(crate) fn reset(&mut self) {
+        self.session.reset(&mut self.database);
+        self.reader.reset();
+        self.writer.reset();
+    }
+
     /// process received outstation messages while idle without a session
     pub(crate) async fn process_next_message(&mut self) -> Result<(), StopReason> {
         self.session.process_next_message().await
